@@ -16,7 +16,8 @@ AREAS = ["theories/SendReq"]
 ROOTS = ("ov_sendreq",)
 MAXATT = 10
 NREP = 3
-ALPHA = ["Er", "Eu", "Ek", "Dr", "Du", "NL", "N0", "N1", "N2", "N3", "EN", "EB", "EW", "RF", "B0", "B1", "BD", "SC", "SM", "DN", "MT", "DF", "UK"]
+ALPHA = ["Er", "Eu", "Ek", "Dr", "Du", "NL", "N0", "N1", "N2", "N3", "EN", "EB", "EW", "RF", "B0", "B1", "BD", "SC", "SM", "DN", "MT", "DF", "UK",
+         "UR", "RP", "IW", "FP", "FN", "KN", "BV", "MP", "RL", "NI", "RN", "PM", "IM", "DM"]
 
 
 def parse_line(l):
@@ -179,7 +180,7 @@ def main(tier, replay):
         v.violation({"kind": "proof", "theorem_or_file": gate["problems"], "what": "Coq obligations no longer check"}, has_input=False)
     LA = "4" if tier == "quick" else "5"
     cov.update(evaluations=nruns, distinct_nontrivial=stats.get("distinct", 0),
-               rule="per run one SendReqCtx call; classes: A = 11 base configurations (5 read types, stale read, 5 write) x ALL scripts up to length %s over 18 outcomes (DFS, extended only while the run asks for more); B = 15 single-option deviations (labels, liveness, slow stores, busy threshold, short timeout, budgets 1/120 ms, leader-only, learner, failed validation) x ALL scripts up to length %s over 23 outcomes; D = 20 directed long scripts (hint ping-pong, outcome repeated 40x, mixed lassos) x base x budgets x threshold; E = every command type sent through SendReq (36 tikvrpc.CmdType values: txn, raw, cop, mvcc debug; request/response built by reflection) x 2-3 read types x (all scripts up to length 1 over 23 outcomes + replica exhaustion / unreachable stores / spent budget / region invalidated between locate and send); S = sequences of 2 (thorough: also 3) SendReq calls on the SAME cached region with forwarding on (111 first-call scripts x 27 last-call scripts incl. long no-back-off repeats, read/write): each later call starts from the cache state the earlier ones left (memoised proxy, cached leader, store liveness / slow / epoch marks, load estimates), which is observed, reported in the configuration (ld, px, es, be, olv, osl; pre = the earlier scripts), given to the model as its initial state AND compared with the end-of-call cache state the model predicts for the previous call (run_st / end_cache); variants: forwarding on (read, write), forwarding off (read with busy threshold, write, mixed-type read); same oracles per call; H = caller cancellation / kill flag (before the call, while attempt 0..2 is in flight, during back-off sleep 0..1; every base configuration and non-interruptible Commit) x ALL scripts up to length 2/3; async = every case with a script up to length 2 (quick) / every case with a script up to length 4 (thorough) without cancellation is also sent through SendReqAsync (failpoint useSendReqAsync) and compared with the same model (cfg field c_async: only the kill check before the first attempt differs); G = request dimension StoreTp x endpoint type (TiFlash-served coprocessor reads on a region with a TiFlash peer, TiDB-served requests; validation passing/failing, plain/stale; oracle: a read whose ts failed validation is never sent unless StoreTp == TiDB); F = forwarding on (leader read/write x 6 liveness patterns x ALL scripts up to length 3/4: proxy selection, ForwardedHost, send failure through a proxy; model-compared); C = random configurations x random scripts of length 4..60 (incl. forwarding). Provenance of a result is decided by object identity with the responses the scripted stores returned. distinct = distinct (configuration, model trace, result) triples among model-compared runs" % (LA, "2" if tier == "quick" else "3"),
+               rule="per run one SendReqCtx call; classes: A = 11 base configurations (5 read types, stale read, 5 write) x ALL scripts up to length %s over 18 outcomes (DFS, extended only while the run asks for more); B = 15 single-option deviations (labels, liveness, slow stores, busy threshold, short timeout, budgets 1/120 ms, leader-only, learner, failed validation) x ALL scripts up to length %s over 23 outcomes; D = 20 directed long scripts (hint ping-pong, outcome repeated 40x, mixed lassos) x base x budgets x threshold; E = every command type sent through SendReq (36 tikvrpc.CmdType values: txn, raw, cop, mvcc debug; request/response built by reflection) x 2-3 read types x (all scripts up to length 1 over 23 outcomes + replica exhaustion / unreachable stores / spent budget / region invalidated between locate and send); R = rarely produced answers (UndeterminedResult, RecoveryInProgress, IsWitness, FlashbackInProgress / NotPrepared, KeyNotInRegion, BucketVersionNotMatch, MismatchPeerId, RaftEntryTooLarge, RegionNotInitialized, ReadIndexNotReady, ProposalInMergingMode, 'invalid max_ts update', 'Deadline is exceeded' message) mixed with common ones: ALL scripts up to length 2/3 over 20 outcomes x base configurations x 5 option variants; also in the random scripts; S = sequences of 2 (thorough: also 3) SendReq calls on the SAME cached region with forwarding on (111 first-call scripts x 27 last-call scripts incl. long no-back-off repeats, read/write): each later call starts from the cache state the earlier ones left (memoised proxy, cached leader, store liveness / slow / epoch marks, load estimates), which is observed, reported in the configuration (ld, px, es, be, olv, osl; pre = the earlier scripts), given to the model as its initial state AND compared with the end-of-call cache state the model predicts for the previous call (run_st / end_cache); variants: forwarding on (read, write), forwarding off (read with busy threshold, write, mixed-type read); same oracles per call; H = caller cancellation / kill flag (before the call, while attempt 0..1 (thorough 0..2) is in flight, during back-off sleep 0 (thorough 0..1); every base configuration and non-interruptible Commit) x ALL scripts up to length 2/3; async = every case with a script up to length 2 (quick) / every case with a script up to length 4 (thorough) without cancellation is also sent through SendReqAsync (failpoint useSendReqAsync) and compared with the same model (cfg field c_async: only the kill check before the first attempt differs); G = request dimension StoreTp x endpoint type (TiFlash-served coprocessor reads on a region with a TiFlash peer, TiDB-served requests; validation passing/failing, plain/stale; oracle: a read whose ts failed validation is never sent unless StoreTp == TiDB); F = forwarding on (leader read/write x 6 liveness patterns x ALL scripts up to length 3/4: proxy selection, ForwardedHost, send failure through a proxy; model-compared); C = random configurations x random scripts of length 4..60 (incl. forwarding). Provenance of a result is decided by object identity with the responses the scripted stores returned. distinct = distinct (configuration, model trace, result) triples among model-compared runs" % (LA, "2" if tier == "quick" else "3"),
                samples=samples, traces_validated_against_impl=stats.get("cases", 0), input_distribution=counts,
                model_mismatches=len(mism), oracle_failures=len(ofails), bound_fail_classes=stats.get("bound_fail_classes", {}),
                rearmed_runs=stats.get("rearmed", 0), multi_attempt_runs=stats.get("multiattempt", 0),
